@@ -551,6 +551,42 @@ def misc_programs(rng, wd, idx):
     a = [" cpu z80", " org 0", "cnt set 0", " while cnt<%d" % n, " db cnt,cnt*2&255", "cnt set cnt+1", " endm", " db 5"]
     b = [" cpu z80", " org 0"] + [" db %d,%d" % (i, (i * 2) & 255) for i in range(n)] + [" db 5"]
     progs.append(("while", "\n".join(a) + "\n", "\n".join(b) + "\n"))
+    # WHILE with an arithmetic condition ("until the expression becomes logically false" = zero): counters that start
+    # negative or positive and run towards zero with various steps, differences of two symbols, nested loops
+    start = rng.choice([-5, -3, -1, 0, 1, 4, -40])
+    step = (1 if start < 0 else -1) * rng.choice([1, 1, 2]) if start else 1
+    vals = []
+    v = start
+    while v != 0 and len(vals) < 60 and (v < 0) == (start < 0):
+        vals.append(v)
+        v += step
+    if vals and v != 0:
+        # the step jumps over zero: make the condition a difference that hits zero exactly
+        step = 1 if start < 0 else -1
+        vals = list(range(start, 0, step))
+    a = [" cpu z80", " org 0", "k set %d" % start, " while k", " db k&255", "k set k%+d" % step, " endm", " db 5"]
+    b = [" cpu z80", " org 0"] + [" db %d" % (x & 255) for x in vals] + [" db 5"]
+    progs.append(("while", "\n".join(a) + "\n", "\n".join(b) + "\n"))
+    p_, q_ = rng.randrange(0, 6), rng.randrange(0, 6)
+    lo, hi = min(p_, q_), max(p_, q_)
+    a = [" cpu z80", " org 0", "p set %d" % lo, "q set %d" % hi, " while p-q", " db q-p", "p set p+1", " endm", " db 6",
+         "i set 0", " while i<2", "j set -2", " while j", " db i,j&255", "j set j+1", " endm", "i set i+1", " endm", " db 7"]
+    b = [" cpu z80", " org 0"] + [" db %d" % (hi - x) for x in range(lo, hi)] + [" db 6"] + \
+        [" db %d,%d" % (i, j & 255) for i in range(2) for j in (-2, -1)] + [" db 7"]
+    progs.append(("while", "\n".join(a) + "\n", "\n".join(b) + "\n"))
+    # macro parameters with defaults: omitted, given empty by position (default applies), given empty by KEYWORD (the manual: "keyword
+    # arguments allow to assign an empty string to a parameter with a non-empty default"), given by keyword; the parameters stand inside
+    # strings, so every text is legal
+    # upper-case / digit texts only: arguments are upper-cased in case-insensitive mode, default values are not
+    d1, d2 = rng.choice(["AB", "7", "XYZ"]), rng.choice(["Q", "12", "RS"])
+    g = rng.choice(["U", "55", "LMN"])
+    calls = [("km", d1, d2), ("km %s" % g, g, d2), ("km ,%s" % g, d1, g), ("km ka=", "", d2), ("km kb=,ka=%s" % g, g, ""),
+             ("km ka=,kb=", "", ""), ("km %s,kb=" % g, g, ""), ("km kb=%s" % g, d1, g)]
+    rng.shuffle(calls)
+    calls = calls[:rng.randrange(3, len(calls) + 1)]
+    a = [" cpu z80", " org 0", "km macro ka=%s,kb=%s" % (d1, d2), ' db "<ka|kb>"', " endm"] + [" " + c for c, _, _ in calls] + [" db 4"]
+    b = [" cpu z80", " org 0"] + [' db "<%s|%s>"' % (x, y) for _, x, y in calls] + [" db 4"]
+    progs.append(("keyword-empty", "\n".join(a) + "\n", "\n".join(b) + "\n"))
     return progs
 
 
@@ -608,7 +644,7 @@ def run(args):
     spec_fail, corr_fail, samples = [], [], []
     dist = dict(tok_cases=0, tok_lines=0, tok_lines_spec_applicable=0, tok_backslash_lines=0, tok_np_hist={}, tok_ctrl_token_params=0,
                 programs=0, programs_cs=0, program_lines_expanded=0, i_compared=0)
-    dist["misc"] = {"include": 0, "binclude": 0, "while": 0}
+    dist["misc"] = {"include": 0, "binclude": 0, "while": 0, "keyword-empty": 0}
     distinct = set()
     evaluations = 0
     ntok = {"quick": 1600, "thorough": 30000}[args.tier]
